@@ -471,26 +471,31 @@ def blockOpOf (g : Nat) (sub : Circ) (loc : List Nat) : Op :=
 /-! ## the interpreter -/
 def Res.fail (tr : List Ev) (s : St) (w : World) (e : Err) : Res := ⟨tr, s, w, .raised e⟩
 
+/-- the end of `_sub_do_work`: with `calculate_error_bound` set in the job's data the error becomes
+the distance between the circuit after and before the workflow (next value of the oracle); the
+client's process-global script is handed back untouched -/
+def subFinish (w : World) (s : St) (r : Res) : Res :=
+  let flag0 := ((s.data.data.get? calcKey).map Val.truthy).getD false
+  let w' := { r.w with script := w.script }
+  match r.out with
+  | .raised _ => { r with w := w' }
+  | .ok =>
+    let flag1 := ((r.st.data.data.get? calcKey).map Val.truthy).getD false
+    if !flag1 then { r with w := w' }
+    else if !flag0 then { r with w := w', out := .raised .runtime }   -- old_utry unbound
+    else
+      match w'.errs with
+      | [] => { r with w := w', out := .raised .runtime }
+      | e :: es =>
+        { r with
+          st := { r.st with data := { r.st.data with error := e } },
+          w := { w' with errs := es, distLog := w'.distLog ++ [(s.circ, r.st.circ)] } }
+
 /-- `_sub_do_work(workflow, circuit, data)` on a worker: the process-global script is not there -/
 def subDoWork (f : Tree → World → St → Option Res) (t : Tree) (w : World) (s : St) : Option Res :=
-  let flag0 := ((s.data.data.get? calcKey).map Val.truthy).getD false
   match f t { w with script := [] } s with
   | none => none
-  | some r =>
-    let w' := { r.w with script := w.script }
-    match r.out with
-    | .raised _ => some { r with w := w' }
-    | .ok =>
-      let flag1 := ((r.st.data.data.get? calcKey).map Val.truthy).getD false
-      if !flag1 then some { r with w := w' }
-      else if !flag0 then some { r with w := w', out := .raised .runtime }   -- old_utry unbound
-      else
-        match w'.errs with
-        | [] => some { r with w := w', out := .raised .runtime }
-        | e :: es =>
-          some { r with
-            st := { r.st with data := { r.st.data with error := e } },
-            w := { w' with errs := es, distLog := w'.distLog ++ [(s.circ, r.st.circ)] } }
+  | some r => some (subFinish w s r)
 
 /-- run the jobs one after the other (the oracles and the block table are threaded through) -/
 def mapM' (f : World → α → Option Res) : World → List α → Option (List Res × World)
@@ -622,6 +627,24 @@ def arrivedOf (pickFirst : Bool) (n : Nat) (w : World) : Option (List Nat × Wor
     | [] => none
   else some (List.range n, w)
 
+/-- what ParallelDo does once the awaited branches `jobs` have returned `rs`: fail if one raised,
+else fold `less_than` over the results in arrival order and become the best -/
+def parFinish (env : Env) (lt : Cond) (s : St) (idxs : List Nat) (jobs : List (Tree × Nat))
+    (rs : List Res) (w2 : World) : Res :=
+  let tr := jobTraces rs (List.range rs.length)
+  -- results in arrival order
+  let chosen := idxs.filterMap (fun i => ((jobs.zip rs).find? (fun jr => jr.1.2 == i)).map (·.2))
+  match firstRaised rs with
+  | some e => Res.fail tr s w2 e
+  | none =>
+    match chosen with
+    | [] => Res.fail tr s w2 .runtime
+    | first :: rest =>
+      match pickBestM env lt w2 first rest with
+      | .error e => Res.fail tr s w2 e
+      | .ok (best, w3) =>
+        ⟨tr, ⟨best.st.circ, s.data.becomeWith env.becomeFields best.st.data⟩, w3, .ok⟩
+
 /-- ParallelDo.run.  With `pick_first` only the branches of the first arrival batch are awaited; the
 others are cancelled and their results never looked at (the model does not run them). -/
 def parM (env : Env) (f : Run) (ws : List Tree) (lt : Cond) (pickFirst : Bool) (w : World) (s : St) :
@@ -632,20 +655,7 @@ def parM (env : Env) (f : Run) (ws : List Tree) (lt : Cond) (pickFirst : Bool) (
     let jobs := ws.zipIdx.filter (fun (j : Tree × Nat) => idxs.contains j.2)
     match mapM' (fun w (j : Tree × Nat) => subDoWork f j.1 w s) w0 jobs with
     | none => none
-    | some (rs, w2) =>
-      let tr := jobTraces rs (List.range rs.length)
-      -- results in arrival order
-      let chosen := idxs.filterMap (fun i => ((jobs.zip rs).find? (fun jr => jr.1.2 == i)).map (·.2))
-      match firstRaised rs with
-      | some e => some (Res.fail tr s w2 e)
-      | none =>
-        match chosen with
-        | [] => some (Res.fail tr s w2 .runtime)
-        | first :: rest =>
-          match pickBestM env lt w2 first rest with
-          | .error e => some (Res.fail tr s w2 e)
-          | .ok (best, w3) =>
-            some ⟨tr, ⟨best.st.circ, s.data.becomeWith env.becomeFields best.st.data⟩, w3, .ok⟩
+    | some (rs, w2) => some (parFinish env lt s idxs jobs rs w2)
 
 /-! ### ForEachBlockPass.run -/
 def feUnknown (env : Env) (cfg : FECfg) : Bool :=
@@ -711,6 +721,21 @@ def fePostStep (env : Env) (cfg : FECfg) (model : MModel) (acc : FEPost) (jr : B
 def fePost (env : Env) (cfg : FECfg) (model : MModel) (w1 : World) (jrs : List (BlockJob × Res)) : FEPost :=
   jrs.foldl (fePostStep env cfg model) ⟨w1, [], [], 0⟩
 
+/-- what ForEachBlockPass does once the bodies have returned `rs`: fail if one raised, else
+post-process, write back with `batch_replace`, record the block data, update the error -/
+def feFinish (env : Env) (cfg : FECfg) (s0 : St) (jobs : List BlockJob) (rs : List Res) (w1 : World) :
+    Res :=
+  let tr := jobTraces rs (List.range rs.length)
+  match firstRaised rs with
+  | some e => Res.fail tr s0 w1 e
+  | none =>
+    let post := fePost env cfg s0.data.model w1 (jobs.zip rs)
+    let cr := s0.circ.batchReplace post.items
+    match cr.2 with
+    | .error e => Res.fail tr { s0 with circ := cr.1 } post.w e
+    | .ok () =>
+      ⟨tr, ⟨cr.1, (feAppendRec s0.data (.list post.recs)).updateErrorMul post.esum⟩, post.w, .ok⟩
+
 def forEachM (env : Env) (f : Run) (cfg : FECfg) (body : Tree) (w : World) (s : St) : Option Res :=
   if feUnknown env cfg then some (Res.fail [] s w .value) else    -- gen_replace_filter raises first
   let s0 := feRoom s
@@ -723,17 +748,7 @@ def forEachM (env : Env) (f : Run) (cfg : FECfg) (body : Tree) (w : World) (s : 
     | .ok jobs =>
       match mapM' (fun w (j : BlockJob) => subDoWork f body w ⟨j.sub, j.bd⟩) w jobs with
       | none => none
-      | some (rs, w1) =>
-        let tr := jobTraces rs (List.range rs.length)
-        match firstRaised rs with
-        | some e => some (Res.fail tr s0 w1 e)
-        | none =>
-          let post := fePost env cfg s0.data.model w1 (jobs.zip rs)
-          let cr := s0.circ.batchReplace post.items
-          match cr.2 with
-          | .error e => some (Res.fail tr { s0 with circ := cr.1 } post.w e)
-          | .ok () =>
-            some ⟨tr, ⟨cr.1, (feAppendRec s0.data (.list post.recs)).updateErrorMul post.esum⟩, post.w, .ok⟩
+      | some (rs, w1) => some (feFinish env cfg s0 jobs rs w1)
 
 /-- ClearAllBlockData.run -/
 def clearAllM (w : World) (s : St) : Res :=
